@@ -69,6 +69,10 @@ int main(int argc, char **argv) {
                     catch (const std::bad_alloc &) { fp_fail_at = -1; }
                 }
 #endif
+            } else if (history >= 6 && history <= 8) {   // the application's signal state: SIGABRT blocked / ignored / caught by a handler that returns
+                if (history == 6) { sigset_t m; sigemptyset(&m); sigaddset(&m, SIGABRT); sigprocmask(SIG_BLOCK, &m, nullptr); }
+                else if (history == 7) signal(SIGABRT, SIG_IGN);
+                else { struct sigaction sa; memset(&sa, 0, sizeof sa); sa.sa_handler = [](int) {}; sigaction(SIGABRT, &sa, nullptr); }
             } else if (history == 4) {               // a key set of a custom parameter set generated, exported and re-imported first
                 PSet ps(4, 1024, 1, 2, 10, 2, 2, 2.44e-5, 1e-8, 0.012467);
                 TFheGateBootstrappingSecretKeySet *k = new_random_gate_bootstrapping_secret_keyset(ps.gb);
